@@ -50,8 +50,9 @@ THOROUGH_PLAN = {"test_wikiprocess.py": 14, "test_parser.py": 4, "test_node_expa
 QUICK_PLAN = {
     "C01": {"test_parser.py": (4, [0, 1, 2, 3]), "test_node_expand.py": (1, [0])},
     "C19": {"test_parser.py": (4, [0, 1, 2, 3]), "test_node_expand.py": (1, [0])},
-    "C16": {"test_wikiprocess.py": (24, [0, 5, 11, 17])},
-    "C10": {"test_wikiprocess.py": (24, [0, 5, 11, 17]), "test_node_expand.py": (1, [0])},
+    # every third test of the long file, in six worker processes
+    "C16": {"test_wikiprocess.py": (18, [2, 5, 8, 11, 14, 17])},
+    "C10": {"test_wikiprocess.py": (18, [2, 5, 8, 11, 14, 17]), "test_node_expand.py": (1, [0])},
 }
 NONE = "<None>"
 NONS = 9999
@@ -88,6 +89,7 @@ class Recording:
         self.wall = 0.0
         self.files: list = []
         self.tests_from = ""
+        self.incomplete = 0         # shards that did not run to the end
 
     def contexts(self) -> dict:
         """{(shard, cid): [events in call-return order]}"""
@@ -163,10 +165,12 @@ def run_recording(plan: dict, want_trees: bool = True, per_test_timeout: int = 1
             if rc == 5:          # no test collected in this shard
                 continue
             if rc not in (0, 1):
-                # 0 = all passed, 1 = some tests failed (irrelevant here); anything else: the recording is incomplete
-                raise common.TLCError(f"suite recording shard {k} ended with pytest exit status {rc}: {tail[:300]}")
+                # 0 = all passed, 1 = some tests failed (irrelevant here); anything else (interrupted, internal error,
+                # timeout): what the shard recorded before is still a valid trace prefix; the gap is reported
+                rec.notes[f"shard {k} ended with pytest exit status {rc} (recording incomplete): {tail[:120]}"] = 1
+                rec.incomplete += 1
             if not out.exists():
-                raise common.TLCError(f"suite recording shard {k} wrote no events: {tail[:300]}")
+                continue
             _load(rec, out, k, src)
     rec.wall = time.time() - t0
     if not rec.events:
@@ -251,6 +255,12 @@ def stage_c01(o: Outcome, rec: Recording, info: dict) -> None:
     docs = [t for t, _ in texts if "#invoke" not in t.lower()]
     if len(docs) < len(texts):
         _skip(sk, "text invokes a Lua module: not parsed alone (no Lua in that context), judged on the recorded tree", len(texts) - len(docs))
+    # (replay files keep 3000 characters of a text: the three real pages of tests/*.txt are judged on the recorded
+    #  tree, whose replay re-runs the test; the check's own V direction parses these pages as well)
+    n = len(docs)
+    docs = [t for t in docs if len(t) <= 3000]
+    if len(docs) < n:
+        _skip(sk, "text longer than a replay file keeps: not parsed alone, judged on the recorded tree", n - len(docs))
     info["distinct_parse_texts"] = len(docs)
     # (B) every distinct text through the real parser alone (fresh context, started page, three modes):
     #     exceptions, parser state, trees judged by TLC - the machinery of the check itself
@@ -892,6 +902,8 @@ def extend(o: Outcome, tier: str, pid: str) -> None:
     plan = plan_for(tier, pid)
     rec = run_recording(plan, want_trees=(pid == "C01"))
     info = rec.summary()
+    if rec.incomplete:
+        o.note_drift({"suite": "the recording is incomplete", "shards_not_finished": rec.incomplete, "notes": rec.notes})
     info["tier_plan"] = {f: f"shards {w} of {n}" for f, (n, w) in plan.items()}
     o.rule = (o.rule + " || " if o.rule else "") + RULES[pid]
     o.assumptions = list(o.assumptions) + [
@@ -942,7 +954,7 @@ def replay(case) -> int:
     if text is None:
         print(json.dumps(c, indent=1)[:2000])
         return 1
-    if pid == "C19" or c.get("origin", "").startswith("suite/") or "wikitext1" in c or "wikitext" in c:
+    if pid == "C19" or "wikitext1" in c or "wikitext" in c:
         import c19
 
         o.known = {}
@@ -952,7 +964,7 @@ def replay(case) -> int:
         for v in o.violations:
             print("still failing:", v["why"][:400])
         return 1 if o.violations else 0
-    # C01: the text alone
+    # C01: the text alone, in the recorded mode
     import c01
     import parsetree as pt
 
@@ -960,12 +972,19 @@ def replay(case) -> int:
         ctx = pt.new_ctx(d, templates=True)
         root, err, flags = pt.parse(ctx, text, c.get("mode", "plain") if c.get("mode") in pt.MODES else "plain")
         ctx.close_db_conn()
-    print("text :", repr(text[:500]))
+    print("text :", repr(text[:300]))
     print("error:", err, " flags:", flags)
     if root is None:
         return 1
-    _, bad = c01.validate_trees([("NONE", json.dumps(pt.dump_wf(root)))])
-    print("faults now:", bad.get(0, []))
+    sys.setrecursionlimit(20000)
+    dump = pt.dump_wf(root)
+    if len(pt.shape_key(dump)) <= c01.SLICE_LIMIT and c01.depth_of(dump) <= c01.DEPTH_LIMIT:
+        entries = [("NONE", json.dumps(dump))]
+    else:
+        entries = [(pk, json.dumps(sl)) for pk, sl in c01.slices(dump)]
+    _, bad = c01.validate_trees(entries)
+    faults = sorted({f for fs in bad.values() for f in fs})
+    print("faults now:", faults)
     return 0 if not bad and flags == pt.CLEAN_FLAGS else 1
 
 
